@@ -139,7 +139,30 @@ def classify(func, node, name, params, depth=0):
     return "unknown"
 
 
+def given_alphabet_rule(ctx, rule):
+    """a table built with an explicit `alphabet=` is a table over THAT alphabet (codes of other tables and of `match()` arguments are read
+    in it): `_compute_alphabet` checks the sequences against the given alphabet and returns it, it does not return what it inferred"""
+    from .. import machine
+    f = ctx.src(KT).func("_compute_alphabet")
+    given = [a.arg for a in f.args.args][0]
+    from ..exprnorm import canon as _canon
+    k_none = repr(_canon(ast.parse(f"{given} is None", mode="eval").body))
+    k_given = repr(_canon(ast.parse(f"{given} is not None", mode="eval").body))
+    bad, n = [], 0
+    for w in machine.ways(f.body, machine.assigned_names(f)):
+        if not (w.exit or "").startswith("return "):
+            continue
+        if k_given in w.conds or (k_none not in w.conds and any(given in c_ for c_ in w.conds)):
+            n += 1
+            if w.exit != f"return {given}":
+                bad.append(f"`{w.exit}` where an alphabet was given")
+    ctx.need(n >= 1, "the return of _compute_alphabet for a given alphabet")
+    ctx.ob(rule, KT, "_compute_alphabet", f"return {given} when it is given", not bad,
+           "; ".join(bad) + ": the table is built over another alphabet than the caller asked for - its k-mer codes mean other symbols", f.lineno)
+
+
 def run(ctx):
+    given_alphabet_rule(ctx, "R4.given-alphabet-is-the-table-alphabet")
     s = ctx.src(KT)
     low = s.low
     n_sub = 0
